@@ -109,6 +109,7 @@ def read_only(ctx):
             continue
         ser = Ser(blk)
         replay = {'kind': 'design', 'block': ser.data, 'steps': steps}
+        damaged = False
         for name, fn in READERS.items():
             fp0 = fingerprint(blk)
             try:
@@ -130,11 +131,40 @@ def read_only(ctx):
             ctx.evaluations += 1
             if dif:
                 ctx.violation('modified-by:' + name, '%s modified the block it read: %s' % (name, dif), dict(replay, call=name))
+                damaged = True
                 break
             got, _, _ = passlib.spec_trace(ctx, blk, steps, {}, memmap_by_id, watch=outs)
             if got != base:
                 ctx.violation('behaviour-changed-by:' + name, '%s changed the behaviour of the block it read' % name, dict(replay, call=name))
+                damaged = True
                 break
+        if damaged:
+            if len(ctx.violations) >= 4:
+                break
+            continue       # the block is no longer the design that was generated: nothing further can be decided on it
+        # the block has been exported above; the user now extends it and exports again: the text is that of the design as
+        # it is now (the same text a fresh copy of the block gives), whatever was exported before
+        try:
+            b_ext = passlib.private_copy(blk)
+            with contextlib.redirect_stdout(io.StringIO()):
+                pyrtl.output_to_verilog(io.StringIO(), block=b_ext)
+                with pyrtl.set_working_block(b_ext, no_sanity_check=True):
+                    e_in = pyrtl.Input(2, 'verif_ext_in')
+                    e_reg = pyrtl.Register(2, 'verif_ext_reg')
+                    e_reg.next <<= e_in
+                    e_out = pyrtl.Output(2, 'verif_ext_out')
+                    e_out <<= e_reg
+                f1, f2 = io.StringIO(), io.StringIO()
+                pyrtl.output_to_verilog(f1, block=b_ext)
+                pyrtl.output_to_verilog(f2, block=passlib.private_copy(b_ext))
+            ctx.evaluations += 1
+            if f1.getvalue() != f2.getvalue() or 'verif_ext_out' not in f1.getvalue():
+                ctx.violation('export-depends-on-earlier-export', 'output_to_verilog of a block that was exported, then extended, differs from the '
+                              'export of a copy of the extended block (%d vs %d bytes; new Output %s)' % (
+                                  len(f1.getvalue()), len(f2.getvalue()), 'present' if 'verif_ext_out' in f1.getvalue() else 'missing'),
+                              dict(replay, call='output_to_verilog twice'))
+        except pyrtl.PyrtlError:
+            ctx.count('reader-raised', 'output_to_verilog-after-extension:PyrtlError')
         # output_to_firrtl rewrites in place but must preserve behaviour
         b2 = passlib.private_copy(blk)
         # a default_value every register and memory word of the design can hold (a wider one is not a legal state)
